@@ -25,7 +25,7 @@ except Exception:  # pragma: no cover
 PROP = "C11"
 LEVEL = "model_checking"
 RULE = (
-    "exhaustive enumeration of all labelled digraphs with self-loops on n<=3 classes (2^9=512; thorough also n=4, 65536) x 17 "
+    "(also: every inheritance forest over 3 classes x all 512 keyword digraphs x 2 (thorough 4) position kinds, the parent model counting as a dependency) exhaustive enumeration of all labelled digraphs with self-loops on n<=3 classes (2^9=512; thorough also n=4, 65536) x 17 "
     "position kinds (one kind per graph) x root sets (each single class, all, reversed, a pair, a non-object wrapper; for n=3 in the quick tier: singles + all), plus all graphs with <=3 edges x all assignments of position kinds to "
     "edges (seed-rotated slice: quick 1/64, thorough 1/4 of the assignments); the real orderer is run under a call-event budget and compared with a "
     "DFS reference (cross-checked with networkx); distinct = (graph, positions, roots); non-trivial = cases whose reachable "
@@ -88,13 +88,15 @@ def attach(src, targets_by_kind, tag):
         setattr(src, kind, el)
 
 
-def build(n, edges, kinds):
-    """edges: list of (i, j) meaning class i depends on class j; kinds: parallel list of position kinds."""
+def build(n, edges, kinds, parents=None):
+    """edges: list of (i, j) meaning class i depends on class j; kinds: parallel list of position kinds;
+    parents: optional list, parents[i] = index (< i) of the model class i inherits from, or None."""
     classes = []
     for i in range(n):
         cd = ObjectClassDict()
-        cd["own"] = Property(String())
-        classes.append(ObjectMeta("K%d" % i, (Object,), cd))
+        cd["own%d" % i if parents else "own"] = Property(String())
+        base = Object if not parents or parents[i] is None else classes[parents[i]]
+        classes.append(ObjectMeta("K%d" % i, (base,), cd))
     per_src = {}
     for (i, j), k in zip(edges, kinds):
         per_src.setdefault(i, []).append((k, classes[j]))
@@ -159,17 +161,21 @@ def root_sets(n):
     return out
 
 
-def judge(st, n, edges, kinds, rank, few_roots=False):
+def judge(st, n, edges, kinds, rank, few_roots=False, parents=None):
     for rlabel, roots, wrap in root_sets(n):
         if few_roots and not (rlabel.startswith("single") or rlabel == "all"):
             continue
-        classes = build(n, edges, kinds)
+        classes = build(n, edges, kinds, parents)
         elements = [classes[i] for i in roots]
         if wrap == "wrap":
             elements = [Array(AnyOf(classes[roots[0]], Integer()))]
         elif wrap == "wrap-last":
             elements = [classes[roots[0]], Array(classes[roots[-1]])]
         case = {"n": n, "edges": edges, "kinds": kinds, "roots": rlabel}
+        if parents:
+            case["parents"] = parents
+            # the class statement itself: a model depends on the model it inherits from
+            edges = edges + [(i, p) for i, p in enumerate(parents) if p is not None and (i, p) not in edges]
         st.add("states")
         st.add("transitions", max(1, len(edges)))
         st.add("evaluations")
@@ -190,7 +196,7 @@ def judge(st, n, edges, kinds, rank, few_roots=False):
         if outcome[0] == "timeout":
             st.violation("orderer-did-not-terminate", "%s: budget of %d call events exceeded" % (case, BUDGET), case, rank)
         elif outcome[0] == "raised":
-            st.violation("orderer-raised:%s" % outcome[1], "%s: %s" % (case, outcome[2]), case, rank)
+            st.violation("orderer-raised:%s%s" % (outcome[1], ":inheritance" if parents else ""), "%s: %s" % (case, outcome[2]), case, rank)
         elif want[0] == "cycle":
             if outcome[0] != "cycle":
                 st.violation("cycle-not-refused", "%s: cyclic dependencies but the orderer yielded %s" % (case, outcome[1]), {**case, "yielded": outcome[1]}, rank)
@@ -283,6 +289,10 @@ def inheritance_cases(st):
                 st.outcome("inheritance/order")
 
 
+PARENT_FORESTS = [(None, 0, None), (None, None, 0), (None, None, 1), (None, 0, 0), (None, 0, 1)]
+FOREST_KINDS = ["properties", "anyOf", "additionalProperties", "nested-twice"]
+
+
 def all_graphs(n):
     pairs = [(i, j) for i in range(n) for j in range(n)]
     for mask in range(1 << len(pairs)):
@@ -301,6 +311,10 @@ def plan(tier, seed):
     for r in range(64):
         items.append(("mixed", 3, r, 64, (seed % mod, mod)))
     items.append(("inherit",))
+    # inheritance forests over 3 classes x every keyword digraph
+    for parents in PARENT_FORESTS:
+        for lo in range(0, 512, 16):
+            items.append(("forest", parents, lo, lo + 16))
     if tier == "thorough":
         total = 1 << 16
         step = 256
@@ -314,6 +328,15 @@ def work(item):
     if item[0] == "inherit":
         inheritance_cases(st)
         st.sample({"inheritance_shapes": 5, "kinds": len(KINDS) * 4})
+        return st
+    if item[0] == "forest":
+        _, parents, lo, hi = item
+        pairs = [(i, j) for i in range(3) for j in range(3)]
+        for mask in range(lo, hi):
+            edges = [p for k, p in enumerate(pairs) if mask >> k & 1]
+            for kind in FOREST_KINDS[: 2 if _TIER[0] == "quick" else 4]:
+                judge(st, 3, edges, [kind] * len(edges), rank=len(edges) + 1, few_roots=_TIER[0] == "quick", parents=list(parents))
+        st.sample({"n": 3, "parents": list(parents), "graph_masks": [lo, hi]})
         return st
     if item[0] == "uniform":
         _, n, lo, hi, kinds = item
